@@ -7,7 +7,9 @@ LEAN = os.path.join(VERIF, "lean")
 HARNESS = os.path.join(VERIF, "harness")
 HARNESS_BIN = os.path.join(HARNESS, "target", "release", "asca-harness")
 DRIVER_BIN = os.path.join(LEAN, ".lake", "build", "bin", "driver")
-EVIDENCE = os.path.join(VERIF, "evidence")
+# evidence of runs against /repo itself goes to /verif/evidence; seeded/try.sh and seeded/regress.sh (runs against a deliberately
+# broken tree) point VERIF_EVIDENCE_DIR elsewhere so that they never overwrite it
+EVIDENCE = os.environ.get("VERIF_EVIDENCE_DIR") or os.path.join(VERIF, "evidence")
 REPLAYS = os.path.join(VERIF, "replays")
 KNOWN = os.path.join(VERIF, "known_findings.json")
 
